@@ -573,6 +573,11 @@ class EnforcedForest:
         # topology has changed so clear cache
         if (u, v) not in self.edge_data:
             self._cache = {}
+            # a node has exactly one parent: if `v` is being moved
+            # to a new parent remove the edge from the previous one
+            previous = self.parents.get(v)
+            if previous is not None and previous != u:
+                self.edge_data.pop((previous, v), None)
         else:
             # check to see if matrix and geometry are identical
             edge = self.edge_data[(u, v)]
